@@ -23,6 +23,8 @@ CONSTANTS N,        \* number of replicas, named 1..N (the order of server uuids
           MaxTs,    \* timestamps 1..MaxTs for local writes
           MaxRepl,  \* bound on exchanges
           MaxWrites,\* bound on local writes
+          RecycleAge, \* recycle-bin retention in model time units (0 = purge allowed at once)
+          Window,   \* changelog window in model time units (0 = no trimming action)
           MergeRestamp, \* BOOLEAN: merged valueset content is re-stamped with the consumer's change id (fixed tree)
           NoSkew,   \* BOOLEAN: clocks are causally consistent (a write is stamped later than every change the
                     \* replica has already received); FALSE also explores replicas whose clock lags behind
@@ -42,9 +44,10 @@ VARIABLES ent,     \* [Replicas -> [AllIds -> entry]]
           ruv,     \* [Replicas -> SUBSET Cids]
           nrepl, nwrites,
           hist,    \* sequence of operations performed (exported for replay; hidden by VIEW)
+          purged,  \* ids that were purged to a tombstone somewhere (for NoDroppedDeletion)
           arms     \* which arms of the consumer's apply logic the last exchange took (coverage export; hidden)
-vars == <<ent, cnf, ruv, nrepl, nwrites, hist, arms>>
-View == <<ent, cnf, ruv, nrepl, nwrites>>
+vars == <<ent, cnf, ruv, nrepl, nwrites, hist, purged, arms>>
+View == <<ent, cnf, ruv, nrepl, nwrites, purged>>
 
 \* ---------------------------------------------------------------- L0: entries
 \* session state record: st = 0 absent, 1 live (expires far in the future), 2 revoked at cid c
@@ -89,6 +92,7 @@ Write(r, u, newe, c, op) ==
   /\ nwrites' = nwrites + 1
   /\ Log(op)
   /\ arms' = {}
+  /\ purged' = IF op.op = "purge" THEN purged \cup {u} ELSE purged
   /\ UNCHANGED <<cnf, nrepl>>
 
 \* attrunique on create / rename: refused when another NORMAL entry on this replica has the name
@@ -129,8 +133,20 @@ Revive(r, u, ts) ==
            [op |-> "revive", r |-> r, e |-> u, t |-> ts])
 
 Purge(r, u, ts) ==    \* recycled -> tombstone (purge_recycled; the retention timer is abstracted)
-  /\ IsLive(ent[r][u]) /\ ent[r][u].cls = "r" /\ Stamp(r, ts)
+  /\ IsLive(ent[r][u]) /\ ent[r][u].cls = "r" /\ Stamp(r, ts) /\ ts >= ent[r][u].ch["cls"][1] + RecycleAge
   /\ Write(r, u, Tomb(<<ts, r>>), <<ts, r>>, [op |-> "purge", r |-> r, e |-> u, t |-> ts])
+
+\* purge_tombstones: an anchor change id is written, change ids older than the changelog window leave the
+\* RUV, tombstones older than the window are removed for good
+Trim(r, ts) ==
+  /\ Window > 0 /\ Stamp(r, ts) /\ ts > Window /\ nwrites < MaxWrites
+  /\ LET cut == ts - Window IN
+       /\ ruv' = [ruv EXCEPT ![r] = {x \in @ : x[1] >= cut} \cup {<<ts, r>>}]
+       /\ ent' = [ent EXCEPT ![r] = [u \in AllIds |-> IF @[u].k = "tomb" /\ @[u].at[1] < cut THEN Absent ELSE @[u]]]
+  /\ nwrites' = nwrites + 1
+  /\ Log([op |-> "trim", r |-> r, t |-> ts])
+  /\ arms' = {}
+  /\ UNCHANGED <<cnf, nrepl, purged>>
 
 \* ---------------------------------------------------------------- L2: one incremental exchange
 \* merge_state for two LIVE states with equal `at` (left = incoming, right = db)
@@ -206,7 +222,7 @@ Repl(s, c, ts) ==
          \* conflict entries are ordinary entries created under the consumer's own change id
          sentcf == {x \in cnf[s] : InWin(x.ccid)}
      IN IF d.status # "ok" \/ DOMAIN d.ok = {}
-        THEN /\ UNCHANGED <<ent, cnf, ruv, nwrites>>
+        THEN /\ UNCHANGED <<ent, cnf, ruv, nwrites, purged>>
              /\ arms' = {IF d.status = "ok" THEN "nothing-to-supply" ELSE "refused-" \o d.status}
              /\ nrepl' = nrepl + 1
              /\ Log([op |-> "repl", from |-> s, to |-> c, t |-> OwnMax(c), expect |-> d.status])
@@ -227,7 +243,7 @@ Repl(s, c, ts) ==
              /\ arms' = {Arm(Msg(u), ent[c][u]) : u \in touched} \cup (IF clash # {} THEN {"unique-clash"} ELSE {})
                         \cup (IF newcf # {} THEN {"conflict-copy-created"} ELSE {})
              /\ nrepl' = nrepl + 1
-             /\ UNCHANGED nwrites
+             /\ UNCHANGED <<nwrites, purged>>
              /\ Log([op |-> "repl", from |-> s, to |-> c, t |-> ts, expect |-> "ok"])
 
 \* ---------------------------------------------------------------- spec
@@ -235,7 +251,7 @@ Init ==
   /\ ent = [r \in Replicas |-> [u \in AllIds |-> IF u \in Ids THEN NewLive(<<0, 1>>, DefName(u)) ELSE Absent]]
   /\ cnf = [r \in Replicas |-> {}]
   /\ ruv = [r \in Replicas |-> {<<0, 1>>}]
-  /\ nrepl = 0 /\ nwrites = 0 /\ hist = <<>> /\ arms = {}
+  /\ nrepl = 0 /\ nwrites = 0 /\ hist = <<>> /\ arms = {} /\ purged = {}
 
 LocalWrite ==
   \E r \in Replicas, u \in AllIds, ts \in 1..MaxTs :
@@ -244,6 +260,7 @@ LocalWrite ==
      \/ \E s \in Sids : AddSes(r, u, ts, s) \/ RevSes(r, u, ts, s)
      \/ Delete(r, u, ts) \/ Revive(r, u, ts) \/ Purge(r, u, ts)
      \/ \E nm \in Names : Rename(r, u, ts, nm)
+     \/ Trim(r, ts)
 
 Exchange == \E s, c \in Replicas, ts \in 0..MaxTs : Repl(s, c, ts)
 
@@ -274,6 +291,9 @@ ConvergedSessions == Quiescent => \A r1, r2 \in Replicas : \A u \in AllIds :
 UniqueLive == \A r \in Replicas : \A u, v \in AllIds :
                 (u # v /\ IsNormal(ent[r][u]) /\ IsNormal(ent[r][v])) => ent[r][u].nm # ent[r][v].nm
 
+\* C09 (model side): once every pair has nothing left to supply, an entry that was purged to a tombstone
+\* somewhere is not live anywhere (a trimmed supplier must have refused the lagging consumer instead)
+NoDroppedDeletion == Quiescent => \A u \in purged : \A r \in Replicas : ~IsLive(ent[r][u])
 \* C09 (model side): a tombstone never becomes live again on the same replica
-NoResurrection == [][\A r \in Replicas, u \in AllIds : ent[r][u].k = "tomb" => ent'[r][u].k = "tomb"]_vars
+NoResurrection == [][\A r \in Replicas, u \in AllIds : ent[r][u].k = "tomb" => ent'[r][u].k \in {"tomb", "absent"}]_vars
 =============================================================================
